@@ -12,6 +12,8 @@ transport error) and every reachable state / accepted event, i.e. every finite e
 import KafkaVerif.Lemmas.WriterCompl
 import KafkaVerif.Lemmas.WriterMsgs
 import KafkaVerif.Lemmas.WriterLogJournal
+import KafkaVerif.Lemmas.WriterProgress
+import KafkaVerif.Lemmas.RecordWriter
 import KafkaVerif.Gen.WriterConsts
 
 namespace KV.C01
@@ -234,7 +236,7 @@ theorem detach_once (cfg : Cfg) (s s' : State) (pw b : Nat) (why : Why) (size : 
   repeat' split at hs
   all_goals (first | (cases hs; done) | skip)
   rename_i _ P hP _ B hB hg
-  obtain ⟨hc, -, hd, hw⟩ := hg
+  obtain ⟨hc, -, hd, hw, -⟩ := hg
   cases hs
   refine ⟨P, B, hP, hB, hc, hd, ?_, { B with detached := some why }, by simp, rfl⟩
   intro h; subst h; simpa [whyOk] using hw
@@ -324,6 +326,41 @@ theorem log_is_applied_journal (cfg : Cfg) (s : State) (hr : Reachable cfg s) (t
     (s.log tp).map (·.msg) =
       (s.journal.filter (fun j => j.out.applied && (j.tp == tp))).flatMap (fun j => batchMsgs s.batches j.batch) :=
   (invLogJ cfg s hr).logJournal tp
+
+/-- **produce_on_the_wire** — the Writer LTS composed with the record-batch writer model of C05
+(`protocol/record_v2.go writeToVersion2`, the encoder the Transport uses for produce v3+): for every produce event of
+every reachable state and every assignment `payload` of contents (time, key, value, headers) to the messages, the
+bytes written for that request are one well-formed v2 batch which the independent decoder of Spec/RecordBatch accepts
+and which carries exactly the batch's messages — that many, in batch order, contents untouched, millisecond
+timestamps.  So "what the Writer hands to produce" and "what is on the wire" are one statement: the records the
+broker appends are the batch the theorems above speak about.  (Uncompressed, as C05's writer theorem; the request is
+never empty: `produce_nonempty`.) -/
+theorem produce_on_the_wire (cfg : Cfg) (s s' : State) (hr : Reachable cfg s) (pw : Nat) (tp : TP) (msgs : List Msg) (out : BrOut)
+    (hs : step cfg s (.produce pw tp msgs out) = some s')
+    (payload : Msg → Model.RecordWriter.PRec) (crc : Bytes → Nat) (hcrc : ∀ b, crc b < RW.M32) (attrs now : Int)
+    (hwf : (Model.RecordWriter.frameOfV2 attrs now (msgs.map payload)).WF) (hcodec : Spec.RB.codecOf attrs = 0) :
+    ∃ bytes f, Model.RecordWriter.writeV2 crc attrs now (msgs.map payload) = some bytes ∧
+      Spec.RB.readFrame crc bytes = some (f, []) ∧ f.count = msgs.length ∧
+      Spec.RB.flattenEntry ⟨crc, crc⟩ (fun _ _ => none) (.batch f) =
+        some (Spec.RB.isControl attrs,
+          Model.RecordWriter.expected ((msgs.map payload).map (Model.RecordWriter.effTime now)) (msgs.map payload)) := by
+  -- the request is not empty
+  have hne : msgs ≠ [] := by
+    have hA := invAck cfg s hr
+    have hF := invFresh cfg s hr
+    simp only [step, stepProduce] at hs
+    repeat' split at hs
+    all_goals (first | (cases hs; done) | skip)
+    rename_i _ P hP _ b k hsend _ B hB hg
+    obtain ⟨-, -, -, hm, -⟩ := hg
+    have hdet := hA.sentDet pw P hP b (sender_mem_sent (by rw [hsend]; rfl)) B hB
+    have := hF.detNonempty b B hB hdet
+    intro he
+    rw [← hm] at he
+    exact this (List.map_eq_nil_iff.mp he)
+  have hne' : msgs.map payload ≠ [] := fun h => hne (List.map_eq_nil_iff.mp h)
+  obtain ⟨bytes, f, h1, h2, -, h4, -, h6⟩ := Model.RecordWriter.writeV2_spec crc hcrc attrs now (msgs.map payload) hne' hwf hcodec
+  exact ⟨bytes, f, h1, h2, by rw [h4, List.length_map], h6⟩
 
 /-- **acked_has_journal_entry** — "acknowledged" is the broker's own record: a batch counts as acknowledged exactly
 when the journal holds an applied-and-acknowledged decision for it on its topic-partition. -/
